@@ -120,3 +120,32 @@ CHECKS.update({
               'All patterns of length <=6 (thorough 8) over {a,b,LF,CR} x all offsets; every SelectorSyntaxError over all words of <=3 (4) lexemes incl. LF/CR/CRLF: line, column, context, offset within the pattern, position present; DEBUG changes no result over words <=3; pretty() on ~1200 selectors (all attribute operators/flags, negative An+B, nested lists) finishes within 200*len(repr)+10^4 line events and equals repr up to whitespace.',
               'offsets between CR and LF skipped; any common prefix width accepted.'),
 })
+
+
+# ---- additions after the seeded waves (layers that were added to the checks) ----
+def _add(pid, extra_text, extra_note=None):
+    CHECKS[pid]['text'] = CHECKS[pid]['text'].rstrip() + ' ' + extra_text
+    if extra_note:
+        CHECKS[pid]['note'] = CHECKS[pid]['note'].rstrip() + ' ' + extra_note
+
+
+_add('C01', 'The attribute layer also runs on an XHTML materialisation and with name-case variants; attribute values include inner line breaks and non-CSS whitespace.')
+_add('C02', 'Pickled / deep-copied / copied compiled nth selectors must select what the original selects.')
+_add('C03', 'Further layers: id-less structural twins; namespaced XML where select/filter/select_one must equal the elements a fresh uncached compile accepts one by one, inside call sequences WITHOUT purge whose namespace/custom maps share keys and differ in values; and "&" = ":scope" for 10 spellings x 5 maps (with default namespaces) x every target x 5 entry points.')
+_add('C04', 'Edit layer: [query, edit the tree (meta, lang, checked, new submit, class, dir), query] must equal the second query on a never-queried copy with the same edit, for 9 edits x 12 queries on every document.')
+_add('C05', 'Includes a document whose language comes only from the <meta> pragma with an iframe holding its own document, and id-qualified :lang() selectors.')
+_add('C06', 'The alphabet includes stray C0/C1 controls and unnamed code points; empty custom/namespaces maps in every argument shape.')
+_add('C07', 'Also: custom-selector definition chains (Fibonacci-shaped, doubling, nested :not, linear) on a ladder of lengths - the map is input too; CR LF / CR / FF / TAB fragments; the watchdog counts the process\'s own CPU time.')
+_add('C08', 'Odd API values are additionally placed on forms, controls and neighbours while EVERY selector runs through all entry points; zero-step An+B selectors; a selector that hung once is reported once per worker.')
+_add('C09', 'Bases include identifiers that contain or end in escaped whitespace, NBSP and quotes (also at both ends of the pattern).')
+_add('C10', 'Quick now covers the whole BMP; a second target stores its class as a plain string; both surrogate halves are in the word alphabet; a raw-NUL near-miss decoy accompanies values containing U+FFFD.')
+_add('C11', 'Names over the whole alphabet (a..z) and non-ASCII case pairs (e.g. k / KELVIN SIGN, sigma, sharp s) that must NOT match in HTML.')
+_add('C12', 'Top-level comma lists with type-less members and type-less lists inside :not/:is/:nth-child(of S)/:has behind explicitly prefixed compounds.')
+_add('C13', 'Shares the edit layer of C04 (the language is a function of the tree as it is now).')
+_add('C14', 'Every execution starts with util.lower\'s cache full (600 names), as in a long-lived process; operations on two different parentless elements.')
+_add('C15', 'Also: the caller mutates the dicts it passed to compile afterwards; argument tuples whose custom maps share an alias body but define the nested alias differently; compile(compiled, <the arguments it was compiled with>).')
+_add('C16', 'Interpreter-wide state (warnings filters, sys.path, environ, hooks, signals, locale, logging, gc, meta_path, builtins) is snapshotted around the imports and compared with a control import of Beautiful Soup with soupsieve blocked; the probe covers namespaced attributes, xml:lang, namespaces=/custom=, match/closest/filter and escape.')
+_add('C17', 'A deep-iframe family (iframe as last child 0..3 levels down, deciding controls after it); every third document is re-checked under a foreign default namespace map.')
+_add('C18', 'All two-call sequences over (type, string) that share the type or the string must give the stand-alone result; non-ASCII digits.')
+_add('C19', 'Raw-text argument lists with comments, quotes and bare identifiers next to the commas, each with the AST it must mean; text and needles that begin/end with quotes and backslashes.')
+_add('C20', 'Long (re-truncated) values and URL-like values full of regex metacharacters in the pretty-printer set.')
